@@ -1106,6 +1106,14 @@ func (e *Exec) arithInt(st *State, fr *Frame, in ssa.Instruction, op token.Token
 		if k, ok := lowMask(a); ok {
 			return c.IMod(b, c.IntConst(pow2(k)))
 		}
+		// x & m for a non-negative constant m with few set bits: the sum of the selected bits of x
+		// (bit k of x is (x div 2^k) mod 2 in two's complement, for any sign of x)
+		if r, ok := e.andConstInt(a, b); ok {
+			return r
+		}
+		if r, ok := e.andConstInt(b, a); ok {
+			return r
+		}
 	case token.SHR:
 		if b.IsConst() && b.C.IsInt64() {
 			k := uint(b.C.Int64())
@@ -1123,6 +1131,39 @@ func (e *Exec) arithInt(st *State, fr *Frame, in ssa.Instruction, op token.Token
 	}
 	e.bail("operator %s not expressible in arith-int mode at %s", op, e.posOf(in))
 	return nil
+}
+
+// andConstInt: x & m over mathematical integers for a constant m >= 0 with at most 8 set bits.
+func (e *Exec) andConstInt(x, m *Term) (*Term, bool) {
+	c := e.C
+	if !m.IsConst() || m.C.Sign() < 0 {
+		return nil, false
+	}
+	bits := 0
+	for k := 0; k < m.C.BitLen(); k++ {
+		if m.C.Bit(k) == 1 {
+			bits++
+		}
+	}
+	if bits == 0 {
+		return c.Inti(0), true
+	}
+	if bits > 8 {
+		return nil, false
+	}
+	var r *Term
+	for k := 0; k < m.C.BitLen(); k++ {
+		if m.C.Bit(k) == 0 {
+			continue
+		}
+		bit := c.Mul(c.IMod(c.IDiv(x, c.IntConst(pow2(uint(k)))), c.Inti(2)), c.IntConst(pow2(uint(k))))
+		if r == nil {
+			r = bit
+		} else {
+			r = c.Add(r, bit)
+		}
+	}
+	return r, true
 }
 
 // orInt: a | b over mathematical integers when the operands have provably disjoint bit ranges
